@@ -44,7 +44,7 @@ AllDev == {"AppliedIndexNotWrittenWithData", "WalReplayIgnoresIndex", "WalReplay
            "WalClearedAfterReplayWithoutCheckpoint",
            "ScanRevisionReadAfterIteration", "AppliedUpdatedAfterData", "EmptyPrefixScanReturnsNothing",
            "SnapshotLabelBehindContent", "PlainPutKeepsTtl", "CasKeepsTtl", "TtlTablePersistedOnStopOnly",
-           "WalReplayWithoutLease"}
+           "WalReplayWithoutLease", "ReloadDropsDueTtl", "CleanupKeepsWal"}
 
 Max(a, b) == IF a >= b THEN a ELSE b
 Min(a, b) == IF a <= b THEN a ELSE b
@@ -124,12 +124,14 @@ RECURSIVE ReplayWalTtl(_, _, _)
 ReplayWalTtl(t, wal, now) ==
   IF wal = <<>> THEN t
   ELSE LET r == Head(wal)
-           t2 == IF r.kind = "ins" THEN [t EXCEPT ![r.k] = IF r.exp > now THEN r.exp ELSE 0]
+           t2 == IF r.kind = "ins" THEN [t EXCEPT ![r.k] = r.exp]
                  ELSE IF r.kind = "del" THEN [t EXCEPT ![r.k] = 0]
                  ELSE t
        IN ReplayWalTtl(t2, Tail(wal), now)
 
-LiveTtl(t, now) == [k \in KeySet |-> IF t[k] > now THEN t[k] ELSE 0]
+\* lease table restored from a persisted image: the code drops the entries that are already due (their keys
+\* stay in the data and are never cleaned up)
+LiveTtl(t, now) == IF "ReloadDropsDueTtl" \in Dev THEN [k \in KeySet |-> IF t[k] > now THEN t[k] ELSE 0] ELSE t
 WalMaxIdx(wal, dflt) == IF wal = <<>> THEN dflt ELSE Max(dflt, wal[Len(wal)].idx)
 
 (***************************************************************************)
@@ -338,7 +340,8 @@ Snap ==
   /\ UNCHANGED <<log, kv, applied, ttl, disk, clock, inst, refKv, refTtl, bud>>
   /\ \E R \in Retained :
        LET label == IF "SnapshotLabelBehindContent" \in Dev THEN Max(applied - R, 0) ELSE applied IN
-       /\ snap' = [on |-> TRUE, label |-> label, kv |-> kv, ttl |-> ttl, meta |-> disk.meta]
+       /\ snap' = [on |-> TRUE, label |-> label, kv |-> kv, ttl |-> ttl, meta |-> disk.meta,
+                   n |-> Len(log), refKv |-> refKv, refTtl |-> refTtl]
        /\ Lbl([t |-> "snap", retained |-> R])
 
 Install ==
@@ -350,14 +353,23 @@ Install ==
              ELSE [data |-> snap.kv, meta |-> snap.label, wal |-> <<>>, ttl |-> NoTtl]
   /\ inst' = "inst"
   /\ last' = [t |-> "install"]
+  \* expiry cleanup is a local action: the reference for the installing node is the reference at the snapshot
+  \* point plus the entries committed since (the clock does not advance while a snapshot waits, see Tick)
+  /\ LET suffix == SubSeq(log, snap.n + 1, Len(log)) IN
+     /\ refKv' = ApplySeq(snap.refKv, suffix)
+     /\ refTtl' = RefTtlSeq(snap.refKv, snap.refTtl, suffix, clock)
+  /\ UNCHANGED <<log, clock, snap, bud>>
   /\ Lbl([t |-> "install"])
-  /\ UNCHANGED <<log, clock, snap, refKv, refTtl, bud>>
 
 (***************************************************************************)
 (* Time                                                                     *)
 (***************************************************************************)
 Tick ==
   /\ "Tick" \in Feat /\ bud.tick < MaxTick
+  \* time advances only while the instance is caught up and no snapshot is waiting to be installed: re-applying
+  \* a put-with-TTL in a later tick would move its deadline (a consequence of the C15 / C16 deviations, kept out of
+  \* the TTL configurations)
+  /\ Caught /\ ~(snap.on /\ inst = "orig")
   /\ clock' = clock + 1
   /\ bud' = [bud EXCEPT !.tick = @ + 1]
   /\ last' = [t |-> "tick"]
@@ -368,7 +380,11 @@ Cleanup ==
   /\ "Tick" \in Feat /\ bud.clean < MaxClean /\ clock > 0 /\ last.t # "cleanup"
   /\ kv' = CleanStore(kv, ttl, clock) /\ ttl' = CleanTtl(ttl, clock)
   /\ disk' = IF eng = "rocks" THEN [disk EXCEPT !.data = kv']
-             ELSE IF kv' # kv THEN [disk EXCEPT !.data = kv'] ELSE disk
+             ELSE IF kv' = kv THEN disk
+             \* the code rewrites state.data but keeps the WAL, whose replay can bring back a value the
+             \* expired put had overwritten; the repaired design checkpoints
+             ELSE IF "CleanupKeepsWal" \in Dev THEN [disk EXCEPT !.data = kv']
+             ELSE [disk EXCEPT !.data = kv', !.meta = applied, !.wal = <<>>]
   /\ refKv' = CleanStore(refKv, refTtl, clock) /\ refTtl' = CleanTtl(refTtl, clock)
   /\ bud' = [bud EXCEPT !.clean = @ + 1]
   /\ last' = [t |-> "cleanup"]
